@@ -215,18 +215,18 @@ def step (s : St) (line : String) : St × String :=
             let s' := { s with w := w', res := some r' }
             (s', gateStr g ++ " " ++ stateStr s'.res s'.w)
           match fam with
-          | ["balance", a] => plain (cls (accountReference cx (acctArg a)))
-          | ["minbal", a] => plain (cls (accountReference cx (acctArg a)))
-          | ["acctp", a] => plain (cls (accountReference cx (acctArg a)))
-          | ["hold", a, x] => plain (cls (holdingReference cx (acctArg a) (nat! x)))
-          | ["asap", x] => plain (cls (assetReference cx (nat! x) true))
-          | ["appp", x] => plain (cls (appReference cx (nat! x) true))
-          | ["gex", x] => plain (cls (appReference cx (nat! x) true))
-          | ["opted", a, x] => plain (cls (localsReference cx (acctArg a) (nat! x)))
-          | ["lget", a] => plain (cls (localsReference cx (acctArg a) 0))
-          | ["lgetx", a, x] => plain (cls (localsReference cx (acctArg a) (nat! x)))
-          | ["lput", a] => plain (cls (localMutation cx (acctArg a)))
-          | ["ldel", a] => plain (cls (localMutation cx (acctArg a)))
+          | ["balance", a] => plain (cls (resolve cx (.acct (acctArg a))))
+          | ["minbal", a] => plain (cls (resolve cx (.acct (acctArg a))))
+          | ["acctp", a] => plain (cls (resolve cx (.acct (acctArg a))))
+          | ["hold", a, x] => plain (cls (resolve cx (.holding (acctArg a) (nat! x))))
+          | ["asap", x] => plain (cls (resolve cx (.assetParams (nat! x))))
+          | ["appp", x] => plain (cls (resolve cx (.appParams (nat! x))))
+          | ["gex", x] => plain (cls (resolve cx (.appParams (nat! x))))
+          | ["opted", a, x] => plain (cls (resolve cx (.locals (acctArg a) (nat! x))))
+          | ["lget", a] => plain (cls (resolve cx (.locals (acctArg a) 0)))
+          | ["lgetx", a, x] => plain (cls (resolve cx (.locals (acctArg a) (nat! x))))
+          | ["lput", a] => plain (cls (resolve cx (.localMut (acctArg a))))
+          | ["ldel", a] => plain (cls (resolve cx (.localMut (acctArg a))))
           | ["bcreate", n, sz] => box "create" (aid, n) (nat! sz)
           | ["bput", n, sz] => box "put" (aid, n) (nat! sz)
           | ["bdel", n] => box "del" (aid, n) 0
@@ -237,9 +237,9 @@ def step (s : St) (line : String) : St × String :=
           | ["xbdel", p, n] => box "del" (nat! p, n) 0
           | ["xbget", p, n] => box "get" (nat! p, n) 0
           | ["xblen", p, n] => box "len" (nat! p, n) 0
-          | ["ifa", _, a] => plain (cls (assignAccount cx (parseAddr a)))
-          | ["ifs", _, x] => plain (cls (assignAsset cx (nat! x)))
-          | ["ifp", _, x] => plain (cls (assignApp cx (nat! x)))
+          | ["ifa", _, a] => plain (cls (resolve cx (.setAccount (parseAddr a))))
+          | ["ifs", _, x] => plain (cls (resolve cx (.setAsset (nat! x))))
+          | ["ifp", _, x] => plain (cls (resolve cx (.setApp (nat! x))))
           | "isub" :: rest => plain (cls (innerSubmit s.w cx rest))
           | _ => (s, "bad-op")
     | _, _ => (s, "bad-op")
